@@ -18,7 +18,7 @@
 //@ replace: attr_tree_create attr_tree_destroy attr_tree_set_value attr_tree_get_value attr_tree_get_list_len attr_tree_get_all
 //@ replace: xcm_attr_map_create xcm_attr_map_add_bool xcm_attr_map_destroy xcm_attr_map_exists
 //@ replace: socket_wait socket_finish msg_bsend bytestream_bsend set_attrs
-//@ props: C05
+//@ props: C05 C11
 //@ flags: --object-bits 11
 //@ pre-unwind: xcm_accept_a.2:1
 //@ expect: postcondition>=1 canary=3
